@@ -363,7 +363,11 @@ class WsgiApplication(HttpBase):
             return _WsgiResponse([HTTP_404.encode('ascii')], ctx.close)
 
         if self._wsdl is None:
-            self._wsdl = self.doc.wsdl11.get_interface_document()
+            # not holding the lock here: never overwrite a cached document
+            # with the "not built yet" answer of a racing request.
+            wsdl = self.doc.wsdl11.get_interface_document()
+            if wsdl is not None:
+                self._wsdl = wsdl
 
         ctx.transport.wsdl = self._wsdl
 
